@@ -166,6 +166,10 @@ Proof.
   apply zip_In_fst in Hy2. apply Hni. rewrite <- Hy1. now apply (in_map (fun f0 => key (fst f0))).
 Qed.
 
+Lemma map_fst_pair {K A B} (g : A -> B) (m : list (K * A)) :
+  map fst (map (fun kv => (fst kv, g (snd kv))) m) = map fst m.
+Proof. induction m as [|x m IH]; cbn; auto. now rewrite IH. Qed.
+
 (* ================================================================== representation level *)
 Section ReprStep.
   Variables (hs : ty -> tv -> bool) (rp : ty -> tv -> dm) (rc : ty -> dm -> option tv).
@@ -279,7 +283,7 @@ Section ReprStep.
       now rewrite E.
     - (* map *)
       cbn [repr_step]. apply andb_true_iff in Hh as [Hnd Hh]. rewrite forallb_forall in Hh.
-      rewrite map_map. cbn [fst]. rewrite Hnd.
+      rewrite map_fst_pair, Hnd. clear Hnd.
       assert (E : mapM (fun kv => match conf_maybe rc nul t (snd kv) with Some v => Some (fst kv, v) | None => None end)
                        (map (fun kv => (fst kv, repr_maybe rp t (snd kv))) m) = Some m).
       { induction m as [|[k x] m IH]; cbn [map mapM fst snd]; auto. rewrite IH by (intros; apply Hh; now right).
@@ -408,7 +412,7 @@ Section TypeStep.
         rewrite (conf_maybe_tdm false nul t x Hwf Hh); auto. destruct x; cbn in *; auto; discriminate. }
       now rewrite E.
     - cbn [tdm_step]. apply andb_true_iff in Hh as [Hnd Hh]. rewrite forallb_forall in Hh.
-      rewrite map_map. cbn [fst]. rewrite Hnd.
+      rewrite map_fst_pair, Hnd. clear Hnd.
       assert (E : mapM (fun kv => match conf_maybe rc nul t (snd kv) with Some v => Some (fst kv, v) | None => None end)
                        (map (fun kv => (fst kv, tdm_maybe td t (snd kv))) m) = Some m).
       { induction m as [|[k x] m IH]; cbn [map mapM fst snd]; auto. rewrite IH by (intros; apply Hh; now right).
@@ -463,6 +467,6 @@ Theorem tdm_round n : forall t v, has_f n t v = true -> wf t = true ->
 Proof.
   induction n as [|n IH]; intros t v Hh Hwf; [discriminate|].
   unfold conf_f, tdm_f. cbn [fuel_rec]. cbn [has_f] in Hh. split.
-  - apply (tdm_step_nonnull (has_f n) (repr_f n) (tdm_f n)); auto. intros; now apply IH.
+  - apply (tdm_step_nonnull (has_f n) (repr_f n) (tdm_f n)); auto.
   - apply (tdm_step_round (has_f n) (repr_f n) (tdm_f n)); auto; intros; now apply IH.
 Qed.
